@@ -145,7 +145,7 @@ func runC17(r *mon.Run) {
 			if s.v.Sign() == 0 && !c.op.zeroOK {
 				continue
 			}
-			if c.op.maxSecrets > 0 && (used >= c.op.maxSecrets || si%(1+len(secrets)/c.op.maxSecrets) != 0) {
+			if c.op.maxSecrets > 0 && (used >= c.op.maxSecrets || si%(1+len(secrets)/c.op.maxSecrets) != 0) && !(c.op.derived && s.class == "pattern-55") {
 				continue
 			}
 			used++
